@@ -58,6 +58,10 @@ inductive Op
   /-- `slide.notes_slide` on a slide that has none: presentation part, slide part, the notes master the presentation part is
       related to (if any), identities of a new notes master, its theme and the new notes slide part -/
   | addNotes (pres slide : Nat) (master : Option Nat) (newMaster newTheme newNotes : Nat)
+  /-- `shapes.add_ole_object`: slide part, identity of the new embedded part, its name template (`pre%dpost`, chosen by the
+      prog id), then the icon image exactly as a picture (part already holding the bytes / identity of a new image part /
+      extension) -/
+  | addOle (slide ole : Nat) (pre post : Str) (existing : Option Nat) (newImg : Nat) (ext : Str)
 deriving Repr
 
 def masterName : Str := "/ppt/notesMasters/notesMaster1.xml".toList
@@ -81,17 +85,21 @@ def predictNotes (s : St) (pres slide : Nat) (master : Option Nat) (nm nt nn : N
        .addPart nn (nextName s notesPre xmlPost), .addRel nn (rIdStr 1) (.int nm), .addRel nn (rIdStr 2) (.int slide),
        .addRel slide (nextRId s slide) (.int nn)]
 
+/-- `SlidePart.get_or_add_image_part` + the `r:embed` that names the relationship -/
+def predictPic (s : St) (slide : Nat) : Option Nat → Nat → Str → List Delta
+  | some img, _, _ =>
+      match matching s slide img with
+      | some k => [.addRef slide k]
+      | none => let k := nextRId s slide; [.addRel slide k (.int img), .addRef slide k]
+  | none, new, ext =>
+      let k := nextRId s slide
+      [.addPart new (imageName s ext), .addRel slide k (.int new), .addRef slide k]
+
 def predict (s : St) : Op → List Delta
   | .addSlide pres layout new listed =>
       let k := nextRId s pres
       [.addPart new (slideName (listed + 1)), .addRel new (rIdStr 1) (.int layout), .addRel pres k (.int new), .addRef pres k]
-  | .addPicture slide (some img) _ _ =>
-      match matching s slide img with
-      | some k => [.addRef slide k]
-      | none => let k := nextRId s slide; [.addRel slide k (.int img), .addRef slide k]
-  | .addPicture slide none new ext =>
-      let k := nextRId s slide
-      [.addPart new (imageName s ext), .addRel slide k (.int new), .addRef slide k]
+  | .addPicture slide existing new ext => predictPic s slide existing new ext
   | .addChart slide chart xlsx =>
       let k := nextRId s slide
       let cn := nextName s "/ppt/charts/chart".toList ".xml".toList
@@ -99,6 +107,14 @@ def predict (s : St) : Op → List Delta
       [.addPart chart cn, .addPart xlsx xn, .addRel chart (rIdStr 1) (.int xlsx), .addRef chart (rIdStr 1),
        .addRel slide k (.int chart), .addRef slide k]
   | .addNotes pres slide master nm nt nn => predictNotes s pres slide master nm nt nn
+  | .addOle slide ole pre post existing ni ext =>
+      -- `_ole_object_rId` is evaluated first (the embedded part under `next_partname`, related under `_next_rId`, named by
+      -- `p:oleObj/@r:id`), then `_icon_rId`: `get_or_add_image_part` on the graph as it is THEN
+      let k := nextRId s slide
+      let d1 : List Delta := [.addPart ole (nextName s pre post), .addRel slide k (.int ole), .addRef slide k]
+      match runD s d1 0 with
+      | .ok s1 => d1 ++ predictPic s1 slide existing ni ext
+      | .error _ => d1
 
 /-- the graph after the call (`none`: some predicted delta is ill-formed - excluded by `predict_ok`) -/
 def step (s : St) (op : Op) : Option St :=
